@@ -490,6 +490,9 @@ func main() {
 		{"Authorization: Bearer t", "Cookie: a=b"},
 		{"Connection: keep-alive, X-Hop", "X-Hop: v", "X-A: 1"},
 		{"Accept-Encoding: gzip", "User-Agent: ua"},
+		// a field named in Connection by a token in another letter case than the field's line
+		{"Connection: x-hop", "X-Hop: v", "X-A: 1"},
+		{"Connection: CLOSE, x-HOP", "x-hop: v"},
 		// hop-by-hop fields whose first value is empty
 		{"Keep-Alive:", "Keep-Alive: timeout=5"},
 		{"Proxy-Authorization:", "Proxy-Authorization: Basic x", "X-A: 1"},
